@@ -12,6 +12,7 @@ use crate::spec::Kind;
 
 fn check(ctx: &Ctx, m: &ModelGame, label: &str, counting: bool) -> Result<(), Fail> {
 	let bytes = m.encode();
+	super::sibling_history(m, &bytes);
 	if counting {
 		ctx.eval();
 		let f = classify(ctx, m);
